@@ -36,7 +36,8 @@ Fourth-wave families (both tiers; alphabets in mc/domains/w4_c12.py):
 * spelling of explicit '<number><separator><unit>' strings: separator in {no
   blank (the bundled data write `100K`), one blank, two blanks} x number in
   {positional, integral values without '.0'} - the 5 spellings not used
-  elsewhere - x every unit of the unit-space family (63) and every prefixed
+  elsewhere - plus (sixth wave) one blank x {no digit before the point
+  ('.5'), no digit after it ('5.')} - x every unit of the unit-space family (63) and every prefixed
   unit whose prefixed name directly follows the number (20 prefixes on J,
   cal, K), all four kinds explicit, on the 2-record core (thorough: 8);
 * file layouts: the group's data in the loaded library.yaml itself, in an
@@ -128,7 +129,7 @@ BOUND = {'quick': '96 records x 54 mode combinations (3 modes for each of H, S, 
                   'tiny/huge values x 54 mode combinations; two groups in one file: '
                   'all 16 ordered pairs of a 4-record core x 9 mode pairs x all '
                   'temperature/T_ref-line presentations of each group; '
-                  'spelling: 5 new (separator, number style) spellings of explicit '
+                  'spelling: 7 new (separator, number style) spellings (incl. .5 and 5.) of explicit '
                   'strings x (%d unit-space units + 20 prefixes x {J, cal, K}) x 2 '
                   'records; layouts: 7 include layouts x 4 records x 3 value modes x 2 '
                   'temperature modes, and the missing-unit clause in 8 layouts x 3 '
